@@ -184,6 +184,10 @@ pub enum Step {
     /// `times` binds of the same label of `v`, alternately to `t1` and `t2`, with nothing looked at
     /// in between (counters that wrap, caches that are validated by a revision number)
     Storm { i: usize, v: Id, a: PLabel, t1: Id, t2: Id, times: usize },
+    /// the same cheap call `times` times in a row, nothing looked at in between: kind 0 = put() of
+    /// fresh data on `v`, 1 = repeated data() of a datum that was read already, 2 = add() of the
+    /// present `v`, 3 = clone() + drop, 4 = save() to path 0
+    Repeat { i: usize, kind: u8, v: Id, times: usize },
     /// `times` calls of slice(v) whose results are dropped unseen
     SliceStorm { src: usize, v: Id, times: usize },
     /// `dst.clone_from(&src)` on a graph that already exists and was used
@@ -236,6 +240,7 @@ impl Step {
             Self::Clone { .. } | Self::CloneFrom { .. } => "clone",
             Self::Unlink { .. } => "unlink",
             Self::Storm { .. } => "storm",
+            Self::Repeat { .. } => "repeat",
             Self::SliceStorm { .. } => "slicestorm",
             Self::Drop { .. } => "drop",
             Self::Slice { .. } => "slice",
